@@ -691,6 +691,12 @@ def ms13(p, res):
                             a, c = sym.operand(st["o"][0]), sym.operand(st["o"][1])
                             if (a.key() == lk and c.const_value() in (0, 1)) or (c.key() == lk and a.const_value() in (0, 1)):
                                 how = "length compared with zero"
+                            # a factor of the length (the length is a product of dimensions) compared with zero
+                            lat = set(sym.operand(t["a"][1]).atoms())
+                            for u, v in ((a, c), (c, a)):
+                                ua = set(u.atoms())
+                                if ua and ua <= lat and v.is_const() and v.const_value() in (0, 1):
+                                    how = "a factor of the length compared with zero"
                             # alignment assertion: align_offset(ptr, ..) == 0
                             for side, other in ((st["o"][0], c), (st["o"][1], a)):
                                 for q in flow.op_roots(side):
